@@ -619,6 +619,8 @@ class LibsModel:
                 ng = ('CART', fr, 'vec')
                 if g[1] in ('W2', 'W1'):
                     interp.emit('unreduced_diff', node, arg=a)
+                if g[1] == 'CW':
+                    interp.emit('cw_to_cart', node, arg=a)
             elif is_cart(g):
                 interp.emit('double_cart', node, arg=a)
             out = AV(ty='ndarray', geo=ng, axes=a.axes, deps=d, store='fresh', cart_of=a)
